@@ -97,6 +97,11 @@ Proof.
   intros [<-|[]]. exists r, tx. subst d. auto.
 Qed.
 
+(* the first part of a reply completes nothing *)
+Lemma head_is_silent s r tx d k : ph s = PInFlight r tx d -> partial s = None ->
+  step cfg s (EvHead tx k) = (set_partial s (Some (tx, k)), []).
+Proof. intros H1 H2. cbn [step]. rewrite H1, H2. reflexivity. Qed.
+
 (* a timed-out request leaves the connection usable: unless the limit is reached, the only output
    is the completion and the task is idle on the same connection *)
 Lemma timeout_usable s r tx d : ph s = PInFlight r tx d -> fire cfg d <= now s -> snd (tc_increment (tcount s)) = false ->
